@@ -866,7 +866,7 @@ pub fn property() -> Property {
             PropSub {
                 name: "roundtrip",
                 strategy: roundtrip_strategy,
-                cases: |t| t.pick(60_000, 1_500_000),
+                cases: |t| t.pick(180_000, 1_500_000),
                 run: run_roundtrip,
                 floors: &[("notification", 0.15), ("snapshot", 0.15), ("delta", 0.15), ("special-uri", 0.25), ("empty-object", 0.05), ("tiny-buffer", 0.1), ("over-delta-limit", 0.0005)],
             }
@@ -885,7 +885,7 @@ pub fn property() -> Property {
             PropSub {
                 name: "deltas",
                 strategy: chain_strategy,
-                cases: |t| t.pick(300_000, 6_000_000),
+                cases: |t| t.pick(900_000, 6_000_000),
                 run: run_chain,
                 floors: &[("consecutive", 0.15), ("not-consecutive", 0.15), ("gap-or-dup", 0.2), ("limit-0", 0.05), ("truncating-limit", 0.1), ("origins-match", 0.03), ("origins-differ", 0.3)],
             }
